@@ -18,12 +18,22 @@ structure Cfg where
   nts : List String
 deriving Inhabited
 
+/-- The grammar the author wrote, read by symbol KIND and not by spelling (this is the oracle's view; the
+    generator compares spellings — known finding D16): a string literal is always a terminal (tagged with a leading
+    `"` so that it cannot be confused with a production or with the keyword), an alternative is empty exactly when it
+    is the single keyword `empty`. -/
 def cfgOf (syn : List SProd) (terminals nts : List String) : Cfg :=
-  { prods := ((augment syn).map fun p => (p.head, if prodLen p == 0 then [] else p.body.map (·.name))).toArray,
+  { prods := ((augment syn).map fun p =>
+      (p.head,
+       match p.body with
+       | [s] => if s.kind != .strLit && s.name == "empty" then [] else [if s.kind == .strLit then "\"" ++ s.name else s.name]
+       | b => b.map fun s => if s.kind == .strLit then "\"" ++ s.name else s.name)).toArray,
     terminals := terminals, nts := nts }
 
 def Cfg.isNT (G : Cfg) (s : String) : Bool := G.nts.contains s
-def Cfg.termType (G : Cfg) (s : String) : Nat := (G.terminals.idxOf? s).getD 0
+/-- token type of a terminal; a string literal (tagged) is looked up by its content -/
+def Cfg.termType (G : Cfg) (s : String) : Nat :=
+  (G.terminals.idxOf? (if s.startsWith "\"" then (s.drop 1).toString else s)).getD 0
 
 /-- `Derives G α w`: the sentential form `α` derives the token-type string `w` -/
 inductive Derives (G : Cfg) : List String → List Nat → Prop
